@@ -23,8 +23,8 @@ POOL = {
     'glob': ['*', 'a/*', '**', '**/.a', '*/', '*.a', '.*', '@(a|b)/*', '!(a)', '\\!a', '[|]/a', 'a\\|b', '@(a\\)|b)', '@(a|[)]|b)/*', '[]|]', '[[:digit:]|]/a'],
 }
 EXCL = {
-    'fn': ['*.a', 'a*', '.*', '*', '@(a|b)', '?a'],
-    'glob': ['*.a', 'a/*', '**/.a', '**', '*/', '@(a|b)/?'],
+    'fn': ['*.a', 'a*', '.*', '*', '@(a|b)', '?a', '!a'],
+    'glob': ['*.a', 'a/*', '**/.a', '**', '*/', '@(a|b)/?', '!a'],
 }
 FLAGSETS = {
     'fn': ['E', '', 'DE'],
